@@ -907,6 +907,40 @@ def replay(ctx, path):
             shutil.rmtree(tmp, ignore_errors=True)
         print('replay: pybufrkit %s -> %s' % (' '.join(rep['cli']), bad or 'library error reported without a traceback'))
         return
+    if 'probe' in rep:
+        from pybufrkit.decoder import Decoder
+        hist = [HOp.from_json(d) for d in rep['history']]
+        op = HOp.from_json(rep['probe'])
+        shared = Decoder()
+        for h in hist:
+            o = run_op(shared, h)
+            print('replay: history  %-28s %s -> %s' % (h.flags(), h.variant or (h.case and [d and d[0] for d in h.case.dmg]), o.brief()))
+        got = run_op(shared, op)
+        fresh = run_op(Decoder(), op)
+        print('replay: probe    %-28s %s%s' % (op.flags(), op.variant or (op.case and [d and d[0] for d in op.case.dmg]),
+                                              ', continue-on-error' if op.cont else ''))
+        print('        on the Decoder with that history:', got.brief())
+        print('        on a fresh Decoder:              ', fresh.brief())
+        if not got.same(fresh):
+            ctx.violation('history: the operation gives %s after the history, %s on a fresh Decoder' % (got.brief(), fresh.brief()),
+                          rep, signature={'stage': 'history', 'op': op.flags(), 'shared': got.out, 'fresh': fresh.out})
+            return
+        r = None
+        if op.kind != 'process-nosig':
+            r = drv.batch([treq, scan_model_req(op.case) if op.kind == 'scan' else S.scan_req(op.data, op.info_only, False, None, op.ignore)])[1]
+            print('        model:', r)
+        judge_op(ctx, op, got, r)
+        return
+    if 'message_hex' in rep and 'history' in rep:
+        from pybufrkit.decoder import Decoder
+        b = bytes.fromhex(rep['message_hex'])
+        r = truncation_message(treq, b, rep.get('label', 'replay'), 0)
+        for what, rep2, sig in r.get('violations', []):
+            print('replay:', what)
+            ctx.violation(what, rep2, signature=sig)
+        if not r.get('violations'):
+            print('replay: all prefixes, then the complete message on the same Decoder: as on a fresh one')
+        return
     if 'message_hex' in rep:
         from pybufrkit.decoder import Decoder
         b = bytes.fromhex(rep['message_hex'])
@@ -921,16 +955,11 @@ def replay(ctx, path):
             fam, m = decode_family(Decoder(), b + t, rep.get('info_only', False))
             print('replay: with trailing bytes:', fam, m and len(m.serialized_bytes), 'of', len(b))
         return
-    c = SCase()
-    c.s = bytes.fromhex(rep['stream_hex'])
-    c.offs = [o for o, _ in rep['pieces']]
-    c.cur = [c.s[o:o + n] for o, n in rep['pieces']]
-    c.dmg = [tuple(d) if d else None for d in rep['damage']]
-    c.info_only, c.cont, c.idx = rep['info_only'], rep['continue_on_error'], rep.get('case_index', 0)
-    items, out = S.impl_scan(c.s, info_only=c.info_only, continue_on_error=c.cont, limit=len(c.cur) + 4)
-    r = drv.batch([treq, S.scan_req(c.s, c.info_only, c.cont)])[1]
+    c = scase_from_replay(rep)
+    items, out = scan_fresh(c, len(c.cur) + 4)
+    r = drv.batch([treq, scan_model_req(c)])[1]
     why, counters = oracle(c, items, out)
-    print('replay: damage', c.dmg)
+    print('replay: damage', c.dmg, '(ignore_value_expectation=%s, filter=%s)' % (c.ignore, c.filt[0] if c.filt else None))
     print('        implementation', out, [len(x) for x in items])
     print('        model', r['outcome'], r['items'])
     print('        oracle:', why or 'holds', counters)
